@@ -93,6 +93,7 @@ def main():
     for job in jobs:
         H = [h for h in HARNESSES[job["prop"]] if h.group == job["group"]][0]
         cx = ConcCx(job["inputs"])
+        E.cx = cx
         try:
             with warnings.catch_warnings():
                 warnings.simplefilter("ignore")
